@@ -36,8 +36,8 @@ def quiet(fn, *a, **k):
 def run_ipm_tool(tool, data, a, b, fi, fo, wd, tag):
     """returns output bytes (or raises)"""
     if tool == 'mci_ipm_encode':
-        out = io.BytesIO()
-        mci_ipm_encode.mci_ipm_encode(io.BytesIO(data), out_file=out, in_encoding=a, out_encoding=b, in_format=fi, out_format=fo)
+        out = drv.new_file()
+        mci_ipm_encode.mci_ipm_encode(drv.new_file(data), out_file=out, in_encoding=a, out_encoding=b, in_format=fi, out_format=fo)
         return out.getvalue()
     path = os.path.join(wd, 'conv-%d-%s.ipm' % (os.getpid(), tag))
     drv.spit(path, data)
@@ -209,8 +209,8 @@ def _drive_param(args):
 
         def conv(data, x, y, f1, f2, tag):
             if tool == 'mci_ipm_param_encode':
-                o = io.BytesIO()
-                mci_ipm_param_encode.mci_ipm_param_encode(io.BytesIO(data), o, in_encoding=x, out_encoding=y, in_format=f1, out_format=f2)
+                o = drv.new_file()
+                mci_ipm_param_encode.mci_ipm_param_encode(drv.new_file(data), o, in_encoding=x, out_encoding=y, in_format=f1, out_format=f2)
                 return o.getvalue()
             path = os.path.join(wd, 'pconv-%d-%s.bin' % (os.getpid(), tag))
             drv.spit(path, data)
@@ -284,6 +284,10 @@ def run(rep, wd, tier, seed):
     rep.sample({'conversion': results[0]['desc']})
     # parameter tools
     pouts = _pool(_drive_param, [(seed, wd, p) for p in core.split(pcases, core.NCPU)])
+    from . import isocheck
+    fpc = [c for c in pcases if c[1] == 'mci_ipm_param_encode']
+    tpc = [[(100000 + 100 * k + i,) + tuple(c[1:]) for i, c in enumerate(fpc[k::8][:6])] for k in range(8)]
+    pouts += isocheck.mark_threaded(isocheck.threaded('harness.c19', '_drive_param', [(seed, wd, p) for p in tpc if p], procs=2))
     ptraces = [t for o in pouts for t in o]
     for t in ptraces:
         for key, payload in t['_viol']:
